@@ -529,9 +529,8 @@ def classify(tool, argv, o, fs, mutated):
                 not _looks_like_graph_file(t):
             outdata = t
             outname = pth
-    stdout_clean, noise = _strip_pydot(o.stdout)
-    if noise:
-        o.stdout = stdout_clean
+    # (diagnostics of the third-party dot parser used to be stripped here;
+    # they are noise on the stream that carries the formula, so they count)
     frag_out = cnfref.formula_fragments(o.stdout)
     frag_err = cnfref.formula_fragments(o.stderr)
     frag_file = cnfref.formula_fragments(outdata) if outdata else []
